@@ -19,6 +19,7 @@ import (
 	"lunar/engine/utils"
 	"lunar/engine/utils/environment"
 	"lunar/engine/utils/writers"
+	"lunar/engine/verifhook"
 	"lunar/toolkit-core/logging"
 	"lunar/toolkit-core/network"
 	"lunar/toolkit-core/otel"
@@ -242,6 +243,10 @@ func (rd *HandlingDataManager) initializeStreams() (err error) {
 	}
 	rd.stream = stream
 	rd.stream.WithHub(rd.lunarHub)
+	verifhook.Yield("engine.published")
+	if err = verifhook.Fault("engine.init", ""); err != nil {
+		return fmt.Errorf("failed to initialize streams: %w", err)
+	}
 	if err = rd.stream.Initialize(); err != nil {
 		return fmt.Errorf("failed to initialize streams: %w", err)
 	}
